@@ -21,6 +21,7 @@ RULE = (
     "fault-free evaluation; same-step siblings may or may not be present. Non-trivial: the failing node has >= 1 "
     "upstream or downstream node; distinct = (program shape, failing node position, mode)."
     ' A third of the programs have outputs that cannot be copied or pickled (UTerm); exception classes include falsy objects (__bool__ False, __len__ 0) and one whose __str__ itself raises; the classes are used in turn for the map cases.'
+    " Also: an exception class whose __str__ itself raises; FAILED items of runner.map(error_handling='continue') must carry what a single failing run on that item had completed."
 )
 ASSUMPTIONS = [
     "programs have no fallback on upstream-fed parameters here, so each node runs in exactly one step (levels are exact)",
